@@ -15,6 +15,24 @@ CLAIMED = {
             "final state compared; 400+ seeded longer histories over a wider alphabet are validated by the spec.",
             "Trusted: TLC, the 60-line replay driver. Names are observed only through the public API.",
             "5 C26"),
+    "C25": ("model_checking",
+            "TLA+ spec SourceBuf.tla (faithful model + text-level clauses) model-checked by TLC; every bounded "
+            "call history replayed on the real Source with full state projection; recorded histories trace-validated",
+            "TLC checks content preservation, indentation = line-level brace-nesting reference, literal neutrality and "
+            "balanced-restore on every history of <=3 (thorough 4) calls over a whole-line and a line-splitting "
+            "fragment alphabet; each history is replayed on the real buffer (text, indent, continuing, comment flag "
+            "compared); 600+ random longer histories are validated step by step by the spec.",
+            "Trusted: TLC; projection of private fields via public-API probes. Inputs on which the statement is silent "
+            "are not generated (listed in evidence.not_generated).",
+            "5 C25"),
+    "C27": ("model_checking",
+            "TLA+ transcription PkgModuleName.tla; TLC enumerates all package pairs of a bounded universe and checks "
+            "injectivity; names replayed against the real name_package_module; random sets validated by the spec",
+            "TLC enumerates every pair over 3 names x 201 versions (pre-release/build forms with dots, hyphens, case), "
+            "decides injectivity on the model, and each pair is run through the real function (names must agree with "
+            "the model, collisions are violations); 3000+ random sets of 2-4 packages are re-derived by the spec.",
+            "Trusted: TLC; wit-parser's acceptance of package names/versions defines validity.",
+            "5 C27"),
 }
 
 PENDING_REASON = "check not built yet in this session (planned, see DESIGN.md section 5); not claimed until it runs"
